@@ -128,7 +128,7 @@ _num = re.compile(rb"^[+-]?(\d+\.?\d*|\.\d+)([eE][+-]?\d+)?j?$")
 
 def mutate(data, rng):
     """one structure-aware mutation (may be composed)"""
-    n = int(rng.integers(0, 18))
+    n = int(rng.integers(0, 20))
     if not data:
         return bytes(rng.integers(0, 256, int(rng.integers(0, 20)), dtype=np.uint8))
     if n == 0:      # truncate
@@ -200,6 +200,25 @@ def mutate(data, rng):
         p = int(rng.integers(0, len(data)))
         q = min(len(data), p + int(rng.integers(1, 40)))
         return data[:p] + data[p:q] * int(rng.integers(2, 60)) + data[q:]
+    elif n in (17, 18):   # stretch one token to a buffer-boundary length
+        L = int(rng.choice([15, 16, 31, 32, 63, 64, 65, 127, 128, 129, 255,
+                            256, 257, 511, 512, 1023, 1024, 4096]))
+        t = toks[i]
+        if _num.match(t) and not t.endswith(b"j"):
+            # keep it a valid number: pad the fraction with zeros
+            if b"e" in t.lower():
+                mant, ex = re.split(rb"[eE]", t, 1)
+                ex = b"e" + ex
+            else:
+                mant, ex = t, b""
+            if b"." not in mant:
+                mant += b"."
+            pad = L - len(mant) - len(ex)
+            toks[i] = mant + b"0" * max(pad, 0) + ex
+        elif t.startswith(b"[") and t.endswith(b"]"):
+            toks[i] = b"[" + (t[1:-1] * (L // max(1, len(t) - 2) + 1))[:L - 2] + b"]"
+        else:
+            toks[i] = (t * (L // len(t) + 1))[:L]
     elif n in (15, 16):   # copy a value between two lines with the same key
         # (e.g. make two "f:" entries equal, or two rows of numbers equal)
         lines = data.split(b"\n")
